@@ -1,2 +1,238 @@
-(* placeholder while the harness is being brought up *)
-From Verif Require Import C09.Model.
+(* C09 — Policy-mode throttling never exceeds the allowed count per aligned
+   window.  Final statements only; proofs are in Proofs.v / LimitRange.v.
+
+   Vocabulary (Model.v / Spec.v):
+     run_map [] h          trace of a history h of TryToIncrement / Counters() calls
+                           on an empty RateLimitState: one entry per request with
+                           its instant, key, verdict and the limit in force
+     entries_of k tr       the entries of key k = (remedy name, grouping, group id)
+     project k h           the sub-history key k sees (its requests + every Counters())
+     count (in_right W j)  requests that proceeded at an instant in (jW,(j+1)W]
+     bounded_right W B tr  every request that proceeded is within the limit in force,
+                           counting those before it in its right-closed grid window
+                           (windows not cut by an old window ending at B; B = 0: all)
+   Hypotheses: window size W > 0; clock readings of the key's own events are
+   non-decreasing (they are taken under the state's mutex).
+   The model is the tree WITH patches/C09/fix-F-C09.patch. *)
+From Coq Require Import List ZArith Bool Lia.
+From Verif Require Import C09.Model C09.Spec C09.Proofs C09.LimitRange.
+Import ListNotations.
+Open Scope Z_scope.
+
+(* ------------------------------------------------------------------ *)
+(** Per grid window at most the limit proceeds.  The text does not fix the
+    closure of the window edges, so the statement is the disjunction; this code
+    satisfies the right-closed half (and not the left-closed one, see
+    [C09_left_closed_half_fails]).  Window data other than the size (allowed
+    count, ratio, spill-over) may change from request to request: each request
+    that proceeds is within the limit in force when it is handled. *)
+Theorem C09_grid_bound : forall h k W,
+  0 < W -> key_valid k = true ->
+  const_window W (project k h) -> mono (map sev_now (project k h)) ->
+  bounded_left W 0 (entries_of k (run_map [] h)) \/
+  bounded_right W 0 (entries_of k (run_map [] h)).
+Proof. intros. right. apply map_grid_bound; assumption. Qed.
+Print Assumptions C09_grid_bound.
+
+(* With constant window data and spill-over off the limit in force is the one
+   number scaled_quota allowed parts, and no grid window exceeds it. *)
+Theorem C09_grid_bound_const : forall h k wd,
+  0 < wW wd -> wSpillOn wd = false -> key_valid k = true ->
+  const_data wd (project k h) -> mono (map sev_now (project k h)) ->
+  let L := scaled_quota (wAllowed wd) (wParts wd) in
+  (forall j, count (in_left (wW wd) j) (entries_of k (run_map [] h)) <= L) \/
+  (forall j, count (in_right (wW wd) j) (entries_of k (run_map [] h)) <= L).
+Proof. intros. right. apply map_grid_bound_const; assumption. Qed.
+Print Assumptions C09_grid_bound_const.
+
+(* Window size changes between requests: after any history h1 whose last request
+   of key k carried window size W, all further requests with size W respect the
+   W-grid in every window that is not cut by the window left open at the change
+   (ending at wend s1): all windows if that end is on the W-grid, else those
+   beginning at or after it. *)
+Theorem C09_grid_bound_after_resize : forall h1 h2 k W s1,
+  0 < W -> key_valid k = true ->
+  get (final_map [] h1) k = Some s1 -> wW (swd s1) = W ->
+  const_window W (project k h2) -> mono (map sev_now (project k h2)) ->
+  bounded_left W (wend s1) (entries_of k (run_map (final_map [] h1) h2)) \/
+  bounded_right W (wend s1) (entries_of k (run_map (final_map [] h1) h2)).
+Proof. intros. right. apply map_grid_bound_after_resize; assumption. Qed.
+Print Assumptions C09_grid_bound_after_resize.
+
+(* The side condition above is needed: in the window the change cuts, more than
+   the limit can proceed (old window (0,10] still open at 10; new size 4; the
+   window (8,12] gets 4 > 3 requests of the second part of the history).  The
+   hypotheses of the theorem hold here (stale end 10, stored size 4). *)
+Example C09_cut_window_not_bounded :
+  let k := {| kLimiter := [65]; kGrouped := false; kGroup := [] |} in
+  let wd w := {| wW := w; wAllowed := 3; wParts := scale; wSpillOn := false; wRenew := 0 |} in
+  let h1 := [(1, AInc k (wd 10)); (9, AInc k (wd 4))] in
+  let h2 := [(10, AInc k (wd 4)); (11, AInc k (wd 4)); (11, AInc k (wd 4)); (11, AInc k (wd 4))] in
+  option_map (fun s => (wend s, wW (swd s))) (get (final_map [] h1) k) = Some (10, 4) /\
+  count (in_right 4 2) (entries_of k (run_map (final_map [] h1) h2)) = 4 /\
+  map s_lim (entries_of k (run_map (final_map [] h1) h2)) = [3; 3; 3; 3].
+Proof. vm_compute. repeat split. Qed.
+
+(* The left-closed half does not hold for this code (requests at 1, 3, 4, 4 with
+   window 3 and limit 2: three proceed in [3,6)); not a defect, the text leaves
+   the closure open. *)
+Theorem C09_left_closed_half_fails :
+  exists h k W, 0 < W /\ key_valid k = true /\ const_window W (project k h) /\
+    mono (map sev_now (project k h)) /\
+    ~ bounded_left W 0 (entries_of k (run_map [] h)).
+Proof. exact left_closed_half_fails. Qed.
+Print Assumptions C09_left_closed_half_fails.
+
+(* ------------------------------------------------------------------ *)
+(** Counters of different remedies and different groups never influence each
+    other. *)
+
+(* a request on one key leaves the state of every other key unchanged *)
+Theorem C09_isolation_step : forall m now k wd k',
+  k' <> k -> get (fst (step_map m now (AInc k wd))) k' = get m k'.
+Proof. exact step_map_frame. Qed.
+Print Assumptions C09_isolation_step.
+
+(* a call refused for a missing remedy name / group id changes nothing at all *)
+Theorem C09_invalid_key_no_effect : forall m now k wd,
+  key_valid k = false -> fst (step_map m now (AInc k wd)) = m.
+Proof. exact invalid_key_no_effect. Qed.
+Print Assumptions C09_invalid_key_no_effect.
+
+(* what happens to a key (verdicts, limits in force) is a function of its own
+   sub-history alone, whatever the other keys do in between *)
+Theorem C09_isolation : forall h k,
+  key_valid k = true ->
+  entries_of k (run_map [] h) = run_single None (project k h).
+Proof. intros h k Hk. exact (project_run h [] k Hk). Qed.
+Print Assumptions C09_isolation.
+
+Corollary C09_isolation_histories : forall h h' k,
+  key_valid k = true -> project k h = project k h' ->
+  entries_of k (run_map [] h) = entries_of k (run_map [] h').
+Proof. intros h h' k Hk E. rewrite !C09_isolation by exact Hk. rewrite E. reflexivity. Qed.
+Print Assumptions C09_isolation_histories.
+
+(* ------------------------------------------------------------------ *)
+(** Handled one at a time, a request is rejected only if its group's share of
+    the current window is used up. *)
+
+(* the verdict is Block exactly when the counter of the up-to-date window has
+   reached the limit in force *)
+Theorem C09_exact_sequential : forall now wd s,
+  wW wd <> 0 ->
+  let s1 := ensure now (with_wd s wd) in
+  (snd (try_inc now wd s) = Block <-> limit_at now wd s <= cnt s1) /\
+  (snd (try_inc now wd s) = Proceed <-> cnt s1 < limit_at now wd s).
+Proof. exact try_inc_verdict. Qed.
+Print Assumptions C09_exact_sequential.
+
+(* ... and that counter only counts requests of this key that proceeded inside
+   the closed grid cell [jW,(j+1)W] around the rejected request: a rejection
+   (after the epoch instant, clock >= 0) means the limit in force is used up
+   there. *)
+Theorem C09_rejected_only_when_used_up : forall h k W pre e post,
+  0 < W -> key_valid k = true ->
+  const_window W (project k h) -> mono_from 0 (map sev_now (project k h)) ->
+  entries_of k (run_map [] h) = pre ++ e :: post ->
+  s_verdict e = Block -> 0 < s_now e ->
+  exists j, in_closed W j (s_now e) = true /\ s_lim e <= count (in_closed W j) pre.
+Proof. intros. eapply map_rejected_used_up; eassumption. Qed.
+Print Assumptions C09_rejected_only_when_used_up.
+
+(* ------------------------------------------------------------------ *)
+(** The limit is the allowed count scaled by the allocation percentage, rounded
+    up.  (Patched code; bound of the reflection in the statement: percentages
+    with at most two decimals between 0 and 100, every int64 count.) *)
+Theorem C09_limit_is_ceiling : forall total h,
+  0 <= total <= max_i64 -> 0 <= h <= 10000 ->
+  limit_code total (ratio_of_pct_bits (pct_bits_of_hundredths h)) = limit_exact total h.
+Proof.
+  intros total h Ht Hh. unfold limit_code. rewrite (snap_hundredths h Hh).
+  exact (limit_is_ceiling total h Ht Hh).
+Qed.
+Print Assumptions C09_limit_is_ceiling.
+
+(* whatever float64 the ratio is, the integer part of the limit is an exact
+   ceiling of total * parts / 10^9 *)
+Theorem C09_limit_integer_part : forall total parts,
+  0 < total -> 0 < parts < two63 -> cdiv (total * parts) scale <= max_i64 ->
+  (scaled_quota total parts - 1) * scale < total * parts <= scaled_quota total parts * scale.
+Proof.
+  intros total parts Ht Hp Hq. rewrite (scaled_quota_ceiling total parts Ht Hp Hq).
+  apply cdiv_spec. reflexivity.
+Qed.
+Print Assumptions C09_limit_integer_part.
+
+(* F-C09, the formula of the unpatched tree int64(math.Ceil(float64(total)*ratio)):
+   allowed 100 at 7 % gives 8, the exact rounded-up share is 7; the patched
+   formula gives 7. *)
+Example C09_unfixed_limit_refuted :
+  let r7 := ratio_of_pct_bits (pct_bits_of_hundredths 700) in
+  limit_unfixed 100 r7 = Some 8 /\ limit_exact 100 700 = 7 /\ limit_code 100 r7 = 7.
+Proof. vm_compute. repeat split. Qed.
+
+(* ------------------------------------------------------------------ *)
+(** Plugin level (StrategyBasedThrottlingPlugin.OnRequest). *)
+
+(* the remaining requests get the configured rejection status (429 when unset) *)
+Theorem C09_plugin_status : forall m now r hs m' s,
+  plugin_step m now r hs = (m', PEarly s) -> s = status_of r.
+Proof. exact plugin_status. Qed.
+Print Assumptions C09_plugin_status.
+
+(* requests that reach a counter do so under a key made of the remedy name and,
+   for grouped remedies, the header name and the (trimmed) header value: different
+   remedy names, or different values of the group header under one configuration,
+   never share a key -- with C09_isolation: never influence each other *)
+Theorem C09_plugin_keys_distinct : forall r r' hs hs' k k' rb rb',
+  plugin_pre r hs = PreLimit k rb -> plugin_pre r' hs' = PreLimit k' rb' ->
+  (rName r <> rName r' -> k <> k') /\
+  (forall g, rGqa r = Some g -> rGqa r' = Some g ->
+     trim (header hs (gHeader g)) <> trim (header hs' (gHeader g)) -> k <> k').
+Proof. exact plugin_keys_distinct. Qed.
+Print Assumptions C09_plugin_keys_distinct.
+
+(* default behaviours that decide without a counter (allow, block, undefined)
+   leave every counter untouched *)
+Theorem C09_plugin_default_no_count : forall m now r hs o,
+  plugin_pre r hs = PreDone o -> plugin_step m now r hs = (m, o).
+Proof. exact plugin_done_no_effect. Qed.
+Print Assumptions C09_plugin_default_no_count.
+
+(* ------------------------------------------------------------------ *)
+(** Non-vacuity: a two-key history with a roll-over and rejections satisfies the
+    hypotheses; what the model says it does. *)
+Example C09_example_history :
+  let a := {| kLimiter := [65]; kGrouped := true; kGroup := [103; 49] |} in
+  let b := {| kLimiter := [65]; kGrouped := true; kGroup := [103; 50] |} in
+  let wd := {| wW := 10; wAllowed := 3; wParts := 500000000; wSpillOn := false; wRenew := 0 |} in
+  let h := [(9, AInc a wd); (10, AInc a wd); (10, AInc b wd); (10, AInc a wd);
+            (11, APeek); (11, AInc a wd); (11, AInc b wd); (20, AInc a wd); (20, AInc a wd);
+            (21, AInc a wd)] in
+  key_valid a = true /\ const_data wd (project a h) /\ mono_from 0 (map sev_now (project a h)) /\
+  map (fun e => (s_now e, s_verdict e, s_lim e)) (entries_of a (run_map [] h)) =
+    [(9, Proceed, 2); (10, Proceed, 2); (10, Block, 2); (11, Proceed, 2); (20, Proceed, 2);
+     (20, Block, 2); (21, Proceed, 2)] /\
+  map (fun e => (s_now e, s_verdict e)) (entries_of b (run_map [] h)) =
+    [(10, Proceed); (11, Proceed)].
+Proof.
+  cbn zeta. split; [reflexivity|]. split; [repeat constructor|].
+  split; [cbn; lia|]. vm_compute. split; reflexivity.
+Qed.
+
+(* a grouped plugin request: key, ratio and the store step it amounts to *)
+Example C09_example_plugin :
+  let g := {| gHeader := [88; 45; 71]; gGroups := [{| aVal := [97]; aPct := 4619567317775286272 |}];
+              gDefault := s_block; gDefPct := 0 |} in
+  let r := {| rName := [114]; rAllowed := 100; rWsec := 1; rStatus := 0; rSpillOn := false;
+              rRenew := 0; rGqa := Some g |} in
+  (* X-G: "a" is listed with 7 %: key r / "x-g:a", limit 7; X-G: "b" is not: blocked, 429 *)
+  (exists k rb, plugin_pre r [([88; 45; 71], [97])] = PreLimit k rb /\
+                kGroup k = [120; 45; 103; 58; 97] /\ limit_code 100 rb = 7) /\
+  plugin_step [] 5 r [([88; 45; 71], [98])] = ([], PEarly 429).
+Proof.
+  cbn zeta. split.
+  - eexists. eexists. split; [reflexivity|]. split; vm_compute; reflexivity.
+  - vm_compute. reflexivity.
+Qed.
